@@ -1003,4 +1003,122 @@ invariants — for every accuracy, iteration limit, shrinking on or off, from an
 theorem sxInv_solveX (s : McSx Rat) (h : SxInv s) (eps : Rat) (maxIter : Nat) : SxInv (solveX s eps maxIter).s :=
   (solveLoopX_spec eps maxIter _ h).1
 
+
+/-! ### the stopping rule of the simplex problem -/
+
+theorem mvpStep_down (s : McSx Rat) (e : Nat) (st : Rat × Nat × Rat × Nat) (p : Nat) :
+    (mvpStep s e st p).2.2.1 ≤ st.2.2.1 ∧
+    (0 < s.b.alpha ((s.b.ex e).avar p) → (mvpStep s e st p).2.2.1 ≤ s.b.grad ((s.b.ex e).avar p)) := by
+  unfold mvpStep
+  dsimp only
+  rw [z0]
+  split_ifs with h1 h2 h3 <;> (try dsimp only) <;> constructor <;>
+    first
+      | exact le_refl _
+      | exact le_of_lt h2.2
+      | exact le_of_lt h3.2
+      | (intro _; exact le_refl _)
+      | (intro ha; exact not_lt.mp (fun hh => h2 ⟨ha, hh⟩))
+      | (intro ha; exact not_lt.mp (fun hh => h3 ⟨ha, hh⟩))
+
+/-- `down` of `getSimplexMVP` is below the gradient of every active variable with a positive value -/
+theorem mvp_down_le (s : McSx Rat) (e : Nat) :
+    ∀ b < (s.b.ex e).active, 0 < s.b.alpha ((s.b.ex e).avar b) →
+      (s.simplexMVP e).2.2.1 ≤ s.b.grad ((s.b.ex e).avar b) := by
+  rw [simplexMVP_eq]
+  generalize (s.b.ex e).active = n
+  generalize (-(1.e100 : Rat), (s.b.ex e).avar 0, (1.e100 : Rat), (s.b.ex e).avar 0) = init
+  induction n with
+  | zero => intro b hb; omega
+  | succ n ih =>
+    intro b hb ha
+    rw [List.range_succ, List.foldl_append, List.foldl_cons, List.foldl_nil]
+    have hs := mvpStep_down s e ((List.range n).foldl (mvpStep s e) init) n
+    by_cases hbn : b = n
+    · subst hbn; exact hs.2 ha
+    · exact le_trans hs.1 (ih b (by omega) ha)
+
+/-- loop body of `checkKKT` -/
+def kktStepX (s : McSx Rat) (ret : Rat) (i : Nat) : Rat :=
+  let m := s.simplexMVP i
+  let up := m.1
+  let down := m.2.2.1
+  let ret := cmax (-down) ret
+  let ret := if s.vsum i < s.b.C then cmax up ret else ret
+  if s.vsum i == s.b.C then cmax (up - down) ret else ret
+
+theorem checkKKTX_eq (s : McSx Rat) : s.checkKKT = (List.range s.b.activeEx).foldl (kktStepX s) (0.0 : Rat) := rfl
+
+theorem kktStepX_spec (s : McSx Rat) (ret : Rat) (i : Nat) :
+    ret ≤ kktStepX s ret i ∧ -(s.simplexMVP i).2.2.1 ≤ kktStepX s ret i ∧
+    (s.vsum i < s.b.C → (s.simplexMVP i).1 ≤ kktStepX s ret i) ∧
+    (s.vsum i = s.b.C → (s.simplexMVP i).1 - (s.simplexMVP i).2.2.1 ≤ kktStepX s ret i) := by
+  unfold kktStepX
+  dsimp only
+  have a1 := le_cmax_left (-(s.simplexMVP i).2.2.1) ret
+  have a2 := le_cmax_right (-(s.simplexMVP i).2.2.1) ret
+  have b1 := le_cmax_left (s.simplexMVP i).1 (cmax (-(s.simplexMVP i).2.2.1) ret)
+  have b2 := le_cmax_right (s.simplexMVP i).1 (cmax (-(s.simplexMVP i).2.2.1) ret)
+  by_cases h1 : s.vsum i < s.b.C
+  · rw [if_pos h1]
+    have hne : ¬ ((s.vsum i == s.b.C) = true) := by simp; exact ne_of_lt h1
+    rw [if_neg hne]
+    exact ⟨le_trans a2 b2, le_trans a1 b2, fun _ => b1, fun h => absurd h (ne_of_lt h1)⟩
+  · rw [if_neg h1]
+    by_cases h2 : (s.vsum i == s.b.C) = true
+    · rw [if_pos h2]
+      have c1 := le_cmax_left ((s.simplexMVP i).1 - (s.simplexMVP i).2.2.1) (cmax (-(s.simplexMVP i).2.2.1) ret)
+      have c2 := le_cmax_right ((s.simplexMVP i).1 - (s.simplexMVP i).2.2.1) (cmax (-(s.simplexMVP i).2.2.1) ret)
+      exact ⟨le_trans a2 c2, le_trans a1 c2, fun h => absurd h h1, fun _ => c1⟩
+    · rw [if_neg h2]
+      exact ⟨a2, a1, fun h => absurd h h1, fun h => absurd (by simpa using h) h2⟩
+
+theorem checkKKTX_spec (s : McSx Rat) :
+    0 ≤ s.checkKKT ∧ ∀ i < s.b.activeEx, -(s.simplexMVP i).2.2.1 ≤ s.checkKKT ∧
+      (s.vsum i < s.b.C → (s.simplexMVP i).1 ≤ s.checkKKT) ∧
+      (s.vsum i = s.b.C → (s.simplexMVP i).1 - (s.simplexMVP i).2.2.1 ≤ s.checkKKT) := by
+  rw [checkKKTX_eq]
+  generalize s.b.activeEx = n
+  induction n with
+  | zero => exact ⟨by rw [List.range_zero, List.foldl_nil, z0], fun i hi => absurd hi (Nat.not_lt_zero i)⟩
+  | succ n ih =>
+    rw [List.range_succ, List.foldl_append, List.foldl_cons, List.foldl_nil]
+    have hs := kktStepX_spec s ((List.range n).foldl (kktStepX s) (0.0 : Rat)) n
+    refine ⟨le_trans ih.1 hs.1, fun i hi => ?_⟩
+    by_cases hin : i = n
+    · subst hin; exact hs.2
+    · have := ih.2 i (by omega)
+      exact ⟨le_trans this.1 hs.1, fun h => le_trans (this.2.1 h) hs.1, fun h => le_trans (this.2.2 h) hs.1⟩
+
+/-- KKT up to `eps` for the problem with one sum constraint per example, in terms of the tracked `varsum`:
+no variable can be decreased, none increased if the example is strictly inside, and no pair exchanged along the
+constraint if the example is at the bound, with a gain rate of `eps` or more -/
+def KKTsx (s : McSx Rat) (eps : Rat) : Prop :=
+  ∀ e < s.b.n, ∀ b < (s.b.ex e).active,
+    (0 < s.b.alpha ((s.b.ex e).avar b) → -(s.b.grad ((s.b.ex e).avar b)) < eps) ∧
+    (s.vsum e < s.b.C → s.b.grad ((s.b.ex e).avar b) < eps) ∧
+    (s.vsum e = s.b.C → ∀ b' < (s.b.ex e).active, 0 < s.b.alpha ((s.b.ex e).avar b') →
+      s.b.grad ((s.b.ex e).avar b) - s.b.grad ((s.b.ex e).avar b') < eps)
+
+theorem kktsx_of_checkKKT (s : McSx Rat) (hall : s.b.activeEx = s.b.n) (eps : Rat) (h : s.checkKKT < eps) :
+    KKTsx s eps := by
+  intro e he b hb
+  obtain ⟨c1, c2, c3⟩ := (checkKKTX_spec s).2 e (by rw [hall]; exact he)
+  have hup := mvp_up_ge s e b hb
+  refine ⟨fun ha => ?_, fun hv => ?_, fun hv b' hb' ha' => ?_⟩
+  · have := mvp_down_le s e b hb ha; linarith
+  · have := c2 hv; linarith
+  · have := mvp_down_le s e b' hb' ha'
+    have := c3 hv
+    linarith
+
+/-- `QpAccuracyReached` ⇒ everything is active, the stored gradient is the true gradient (`SxInv.grad`) and it is
+eps-KKT for the simplex-constrained dual -/
+theorem solveX_stop_kkt (s : McSx Rat) (h : SxInv s) (eps : Rat) (maxIter : Nat)
+    (hstop : (solveX s eps maxIter).stop = .accuracy) :
+    (solveX s eps maxIter).s.b.activeVar = (solveX s eps maxIter).s.b.P * (solveX s eps maxIter).s.b.n ∧
+    KKTsx (solveX s eps maxIter).s eps := by
+  obtain ⟨h1, h2, h3⟩ := (solveLoopX_spec eps maxIter _ h).2 hstop
+  exact ⟨h1, kktsx_of_checkKKT _ h2 eps h3⟩
+
 end SharkVerif.Mc
